@@ -344,8 +344,8 @@ class BaseMutableRandomLineAccessFile(BaseRandomLineAccessFile, collections.abc.
         """
         if not isinstance(content, str):
             raise ValueError("You can set only string content.")
-        self._dirty = True
         self._lines[i] = content
+        self._dirty = True
 
     def __delitem__(self, n: int):
         """
@@ -353,8 +353,8 @@ class BaseMutableRandomLineAccessFile(BaseRandomLineAccessFile, collections.abc.
 
         :param n: index of line
         """
-        self._dirty = True
         del self._lines[n]
+        self._dirty = True
 
     def insert(self, index: int, content: str):
         """
